@@ -146,7 +146,7 @@ pub mod verif_exec {
         /// or capture.
         Output { depth: usize, id: u32, from_temp: bool },
         /// Exit of `run_plan` (normal return, error return or unwinding).
-        End { depth: usize },
+        End { depth: usize, panicking: bool },
     }
 
     struct State {
@@ -218,7 +218,10 @@ pub mod verif_exec {
             st.depth = st.depth.saturating_sub(1);
             if st.enabled {
                 let depth = st.depth;
-                st.events.push(Event::End { depth });
+                st.events.push(Event::End {
+                    depth,
+                    panicking: std::thread::panicking(),
+                });
             }
         }
     }
